@@ -214,6 +214,32 @@ Proof.
   - apply Edit_set_val; [apply Edit_refl; auto|reflexivity].
 Qed.
 
+(* --- reset / validate_and_handle -------------------------------------------- *)
+Lemma reset_buf_spec s t p s' e : Wf s -> reset_buf s t p = (s', e) -> Edit s s'.
+Proof.
+  intros W H. unfold reset_buf in H. destruct ((len t <? p) || (p <? 0)) eqn:E.
+  - inversion H; subst. apply Edit_refl; auto.
+  - apply orb_false_iff in E. destruct E as (E1 & E2). inversion H; subst s' e; clear H.
+    unfold Edit, Frame, Wf; simp. split; [repeat split; reflexivity|]. split; [|right; reflexivity].
+    split; [lia|]. split; [intros A; congruence|intros ? ? A; discriminate A].
+Qed.
+
+Lemma reset_buf_clears s t p s' : reset_buf s t p = (s', 0) ->
+  text s' = t /\ cur s' = p /\ cst s' = None /\ vst s' = 0 /\ sug s' = None /\
+  ccos s' = ccos s /\ vcos s' = vcos s /\ scos s' = scos s.
+Proof.
+  unfold reset_buf. destruct ((len t <? p) || (p <? 0)); intros H; inversion H; subst; simp. repeat split; reflexivity.
+Qed.
+
+Lemma validate_and_handle_spec s ok epos keep : Wf s -> Edit s (validate_and_handle s ok epos keep).
+Proof.
+  intros W. unfold validate_and_handle.
+  pose proof (validate_sync_spec s ok epos true W) as E1. set (s1 := validate_sync s ok epos true) in *.
+  destruct ((vst s1 =? 1) && negb keep); [|exact E1].
+  destruct (reset_buf s1 [] 0) as [s2 e] eqn:Er. cbn [fst].
+  eapply Edit_trans; [exact E1|]. eapply reset_buf_spec; [apply E1|exact Er].
+Qed.
+
 (* --- go_to_completion ---------------------------------------------------- *)
 Lemma go_to_index_cases cs i cs1 : go_to_index cs i = Some cs1 ->
   (cs1 = cs /\ cs_comps cs = []) \/
